@@ -8,6 +8,7 @@ ONLY = sys.argv[2:]           # optional prefixes of the incoming directory name
 REPO = os.environ.get("VERIF_REPO", "/repo")   # the checks honour the same variable
 import re
 props = [f"C{i:02d}" for i in range(1, 21)]
+SUBSET = [x for x in os.environ.get("PROPS", "").split(",") if x]   # re-run only these checks and merge the cells into the existing rows
 out = {}
 mp = os.environ.get("MATRIX", "/verif/seeded/MATRIX.json")
 os.makedirs("/verif/seeded", exist_ok=True)
@@ -38,6 +39,7 @@ for sid, patch in seeds():
     if True:
         if sid in out and not os.environ.get("FORCE"):
             continue
+        run = SUBSET or props
         r = subprocess.run(["git", "-C", REPO, "apply", patch], capture_output=True, text=True)
         if r.returncode != 0:
             subprocess.run(["git", "-C", REPO, "checkout", "--", "."])
@@ -53,10 +55,12 @@ for sid, patch in seeds():
                 tag = "DETECTED" if (c.returncode == 1 and "VIOLATION property=" in c.stdout) else ("checker-error" if c.returncode != 0 else "missed")
                 first = next((l.strip() for l in c.stdout.splitlines() if l.startswith("  rule=")), None) or next((l for l in c.stdout.splitlines() if l.startswith("CHECKER-ERROR")), None)
                 return p, {"result": tag, "first": (first or "")[:260]}
-            row.update([one(props[0])])          # first check performs the (locked, cached) extraction
+            if SUBSET and isinstance(out.get(sid), dict) and "error" not in out[sid]:
+                row = dict(out[sid])
+            row.update([one(run[0])])          # first check performs the (locked, cached) extraction
             with cf.ThreadPoolExecutor(10) as ex:
-                row.update(ex.map(one, props[1:]))
-            row = {p: row[p] for p in props}
+                row.update(ex.map(one, run[1:]))
+            row = {p: row[p] for p in props if p in row}
         finally:
             subprocess.run(["git", "-C", REPO, "reset", "-q"])
             subprocess.run(["git", "-C", REPO, "checkout", "--", "."])
@@ -65,6 +69,7 @@ for sid, patch in seeds():
         own = row.get(sid.split("-")[0], {}).get("result")
         print(sid, "own:", own, "all:", [p for p, v in row.items() if v["result"] == "DETECTED"], flush=True)
 # leave evidence files describing the unchanged tree
-with cf.ThreadPoolExecutor(10) as ex:
-    list(ex.map(lambda p: subprocess.run(["/verif/check", p], capture_output=True, text=True, cwd="/verif"), props))
+if not SUBSET:
+    with cf.ThreadPoolExecutor(10) as ex:
+        list(ex.map(lambda p: subprocess.run(["/verif/check", p], capture_output=True, text=True, cwd="/verif"), props))
 print("done")
